@@ -177,6 +177,11 @@ def run_system(acc, rng, case, base, label, with_once):
     if with_once:
         cls.free_servers = False
         cls.clear_clocks = False
+    is_startup = hasattr(base, 'defer')
+    if is_startup:
+        cls.done = False          # a registry whose start-up has not happened yet
+    started = [False]             # model of 'startup is finished' (= run() was called)
+    used_hard = [False]
     R = Runner(acc, rng, case, label)
     B = Bucket()
     funcs = {}
@@ -237,15 +242,65 @@ def run_system(acc, rng, case, base, label, with_once):
             return f'got {a!r} {k!r} expected {ent["args"]!r} {ent["kwargs"]!r}'
 
     def run():
-        R.log.append(['run'])
+        hard = with_once and rng.random() < 0.3
+        R.log.append(['hard_run' if hard else 'run'])
         R.calls.clear(); R.touched.clear(); R.removed_at.clear(); R.readded.clear()
         expected = dict(B.entries)
-        R.run_library(cls.run)
+        if hard:
+            # CmdPeriod.hard_run(): same registry semantics as run()
+            used_hard[0] = True
+            acc.count('registry_hard_runs')
+            R.run_library(cls.hard_run)
+        else:
+            R.run_library(cls.run)
+        started[0] = True
         R.compare(expected, lambda k: B, check_args)
         for k, e in list(B.entries.items()):
             if e.get('once') and any(c[0] == k for c in R.calls):
                 B.remove(k)
                 R.spent_once.add(k)
+
+    def single(label_, aid, call, entry):
+        """One library call that must invoke action aid exactly once with
+        entry's arguments (entry None: must invoke nothing)."""
+        R.log.append([label_, aid] + ([list(entry['args']), dict(entry['kwargs'])]
+                                      if entry else []))
+        R.calls.clear(); R.touched.clear(); R.removed_at.clear(); R.readded.clear()
+        R.armed.pop(aid, None)
+        tmp = Bucket()
+        if entry is not None:
+            tmp.add(aid, 0, **entry)
+        R.run_library(call)
+        R.compare(dict(tmp.entries), lambda k: tmp, check_args)
+
+    def defer(aid, args, kwargs):
+        f = funcs.setdefault(aid, make(aid))
+        if started[0]:
+            # documented: evaluated immediately if startup has happened;
+            # it does not become (or stop being) a registered action
+            acc.count('registry_defer_immediate')
+            single('defer', aid, lambda: cls.defer(f, *args, **kwargs),
+                   dict(args=tuple(args), kwargs=dict(kwargs), once=False))
+        else:
+            acc.count('registry_defer_registered')
+            R.log.append(['defer', aid, list(args), dict(kwargs)])
+            n0 = len(R.calls)
+            cls.defer(f, *args, **kwargs)
+            if len(R.calls) != n0:
+                R.violation('defer-ran-action-before-startup', aid=aid)
+            if aid not in B.entries:
+                R.maybe_fault(aid)
+            B.add(aid, R.tick(), args=tuple(args), kwargs=dict(kwargs), once=False)
+
+    def do_action(aid):
+        # the step run() takes for one action: runs it iff it is registered
+        e = B.entries.get(aid)
+        if e is not None and e.get('once'):
+            return
+        acc.count('registry_do_action_' + ('registered' if e else 'unregistered'))
+        f = funcs.setdefault(aid, make(aid))
+        single('_do_action', aid, lambda: cls._do_action(f),
+               dict(args=e['args'], kwargs=e['kwargs'], once=False) if e else None)
 
     once_aids = set()
     try:
@@ -272,6 +327,19 @@ def run_system(acc, rng, case, base, label, with_once):
                 R.guarded('remove', lambda: apply(('remove', aid)))
             elif r < 0.61:
                 R.guarded('remove_all', lambda: apply(('remove_all',)))
+            elif r < 0.66 and is_startup:
+                if live and rng.random() < 0.2:
+                    aid = rng.choice(live)
+                else:
+                    aid = next_aid; next_aid += 1
+                args = [rng.randint(0, 9) for _ in range(rng.choice([0, 1, 2]))]
+                kwargs = {'k': rng.randint(0, 9)} if rng.random() < 0.3 else {}
+                R.guarded('defer', lambda: defer(aid, args, kwargs))
+            elif r < 0.69 and funcs:
+                gone = [a for a in funcs if a not in B.entries and a not in once_aids]
+                aid = rng.choice(live + gone[:2]) if live + gone[:2] else None
+                if aid is not None:
+                    R.guarded('_do_action', lambda: do_action(aid))
             elif r < 0.78 and len(live) >= 2:
                 # an action that, while it runs, removes a later / an earlier
                 # action / itself / everything, or adds a new one
@@ -296,6 +364,12 @@ def run_system(acc, rng, case, base, label, with_once):
         R.guarded('run', run)
     except Stop:
         pass
+    finally:
+        if used_hard[0]:
+            # hard_run() left node-tree initialisation routines of the default
+            # server on the (non real time) scheduler and commands in the score
+            from sc3.base.main import main
+            main.reset()
     return R
 
 
@@ -438,6 +512,16 @@ def run_server(acc, rng, case):
                 else:
                     R.armed[holder] = ('add', b, next_n, [], {}); next_n += 1
                 R.log.append(['arm', repr(holder), [repr(x) for x in R.armed[holder]]])
+            elif r < 0.81 and funcs:
+                # ServerAction._do_action is an empty stub nothing calls
+                # (outside the statement): observed only
+                n0 = len(R.calls)
+                try:
+                    cls._do_action(funcs[rng.choice(sorted(funcs, key=repr))])
+                    acc.count('observed_server_do_action/' + (
+                        'invoked-nothing' if len(R.calls) == n0 else 'invoked-an-action'))
+                except Exception as e:
+                    acc.count('observed_server_do_action/raises-' + type(e).__name__)
             else:
                 s = rng.choice(servers)
                 R.guarded('run', lambda: run(s))
@@ -495,6 +579,18 @@ def run_notify(acc, rng, case):
                 (id(o), m, id(l)), R.tick(), aid=aid, once=(name == 'register_one_shot'))
             if inside:
                 R.touched.add((id(o), m, id(l)))
+        elif name == 'clear':
+            # NotificationCenter.clear(): nothing is registered afterwards
+            if inside:
+                for b_ in regs.values():
+                    for k in b_.entries:
+                        R.touched.add(k)
+                        R.removed_at.setdefault(k, len(R.calls))
+            NC.clear()
+            regs.clear()
+            acc.count('registry_nc_clear' + ('_inside_notify' if inside else ''))
+            R.feat['removes'] += 1
+            R._removed_since_run = True
         elif name == 'unregister':
             _, o, m, l = op
             if inside:
@@ -593,6 +689,15 @@ def run_notify(acc, rng, case):
                                   repr(t) if v <= 0.88 else 'whole message'])
             elif r < 0.72:
                 R.guarded('registration_exists', exists_check)
+            elif r < 0.75:
+                if keys and rng.random() < 0.5:
+                    holder = rng.choice(keys)
+                    R.armed[holder] = ('clear',)
+                    R.log.append(['arm', repr(holder), 'clear'])
+                else:
+                    R.guarded('clear', lambda: apply(('clear',)))
+                    for _ in range(2):
+                        R.guarded('registration_exists', exists_check)
             else:
                 o, m = rng.choice(objs), rng.choice(msgs)
                 if keys and rng.random() < 0.7:
@@ -752,6 +857,23 @@ def run_real_together(acc, rng, case, family):
                     buckets[u].remove(k)
                     R.spent_once.add(k)
 
+    def defer_real(aid, args):
+        # the library is initialised (this worker called sc3.init()): startup
+        # is finished, StartUp.defer evaluates immediately and registers nothing
+        R.log.append(['defer', 'StartUp', aid, list(args)])
+        R.calls.clear(); R.touched.clear(); R.removed_at.clear(); R.readded.clear()
+        f = funcs.setdefault(aid, make(aid))
+        tmp = Bucket()
+        tmp.add(aid, 0, args=tuple(args))
+        R.run_library(lambda: sac.StartUp.defer(f, *args))
+        acc.count('registry_defer_immediate')
+
+        def check_args(key, ent, payload):
+            a, k = payload
+            if tuple(a) != ent['args'] or k:
+                return f'got {a!r} {k!r} expected {ent["args"]!r}'
+        R.compare(dict(tmp.entries), lambda k: tmp, check_args)
+
     R.running = None
     try:
         next_aid = 0
@@ -779,6 +901,10 @@ def run_real_together(acc, rng, case, family):
                 aid = next_aid; next_aid += 1
                 R.guarded('do_once', lambda: apply(('do_once', 'CmdPeriod', None, aid,
                                                     [rng.randint(0, 9)])))
+            elif r < 0.49 and family == 'system' and startup_done:
+                aid = next_aid; next_aid += 1
+                args = [rng.randint(0, 9) for _ in range(rng.choice([0, 1, 2]))]
+                R.guarded('defer', lambda: defer_real(aid, args))
             elif r < 0.6:
                 (reg, skr), aid = rng.choice(placed)
                 sk = next(k for k in skeys if _sk(k) == skr)
